@@ -24,6 +24,20 @@ theorem volStatus (rw rf : Nat) : Gen.volStatusRW rw rf 0 = decide (rw ≥ rf / 
 theorem canSignal (nreg rf : Nat) : Gen.canSignal nreg 0 rf 0 = decide (nreg ≥ rf / 2 + 1) := by
   unfold Gen.canSignal; simp
 
+/-- the same two tests WITH quorum (arbiter) replicas, which the models leave out: what is accepted here is that
+    a quorum replica raises the thresholds and never stands in for a data replica — a start signal needs
+    `⌊rf/2⌋+1` DATA registrations whatever the number of quorum registrations -/
+theorem volStatusQuorum (rw rf q : Nat) : Gen.volStatusRW rw rf q = decide (rw ≥ (rf + q) / 2 + 1) := by
+  unfold Gen.volStatusRW; simp
+theorem canSignalQuorum (nreg nq rf q : Nat) :
+    Gen.canSignal nreg nq rf q = (decide (nreg ≥ rf / 2 + 1) && decide (nreg + nq ≥ (q + rf) / 2 + 1)) := by
+  unfold Gen.canSignal; simp
+theorem canSignalNeedsDataMajority (nreg nq rf q : Nat) (h : Gen.canSignal nreg nq rf q = true) : nreg ≥ rf / 2 + 1 := by
+  rw [canSignalQuorum] at h; simp at h; exact h.1
+theorem mwWriteQuorum (w u re qe : Nat) :
+    Gen.mwWriteOk w u re qe = (decide (w - re > w / 2) && decide (w + u - re - qe > (w + u) / 2)) := by
+  unfold Gen.mwWriteOk; simp
+
 /-- `MultiWriterAt`: strictly more than half of the writers succeeded — `Ctl.majorityOk`. -/
 theorem mwWrite (w re : Nat) : Gen.mwWriteOk w 0 re 0 = Ctl.majorityOk w re := by
   unfold Gen.mwWriteOk Ctl.majorityOk; simp
